@@ -279,4 +279,18 @@ def isoparseFull (sep : Option (List Nat)) (isStr : Bool) (s : Bytes) : R Result
   let sp ← mkSep sep
   asciiGate isStr s (isoparse sp)
 
+/-- what a caller may pass to a `@_takes_ascii` method: text, bytes, or a stream whose `read()` returns one
+    of them -/
+inductive PyInput where
+  | str (codepoints : List Nat)
+  | bytes (bs : Bytes)
+  | streamStr (codepoints : List Nat)
+  | streamBytes (bs : Bytes)
+  deriving DecidableEq, Repr
+
+/-- `_takes_ascii`: read a stream, encode text as ASCII (ValueError on a non-ASCII character), pass bytes on -/
+def takesAscii {α} (f : Bytes → R α) : PyInput → R α
+  | .str cps | .streamStr cps => if cps.any (fun c => decide (c ≥ 128)) then .error .ValueError else f cps
+  | .bytes bs | .streamBytes bs => f bs
+
 end Iso
